@@ -111,6 +111,9 @@ def pattern(i):
     return i + 1
 
 
+_PATTERN = pattern
+
+
 def register_size(nsub):
     return max(1, nsub.bit_length())
 
@@ -124,11 +127,12 @@ def _flips(i, nq):
     return tuple(("gate", "X", (("item", "q", b),)) for b in range(nq) if v >> b & 1)
 
 
+_FLIPS = _flips
 _P = ("gate", "prepare_all", ())
 _M = ("gate", "measure_all", ())
 
 
-def to_prog(forest, variant="lit", nq=None):
+def to_prog(forest, variant="lit", nq=None, same=False):
     """-> (program AST, override dict, env the program is to be executed in)
     nq: register size (default: just large enough for the patterns; smaller => patterns masked)"""
     nsub = n_closers(forest)
@@ -137,6 +141,7 @@ def to_prog(forest, variant="lit", nq=None):
     counter = [0, 0]  # next subcircuit index, next loop index
     lets = []
     override = {}
+    _flips = (lambda i, nq: _FLIPS(0, nq)) if same else _FLIPS  # same: every subcircuit has the gates of subcircuit 0
 
     def conv_items(items):
         out = []
@@ -486,6 +491,23 @@ class C08(Check):
         if result is not None:
             self._judge_result(ctx, result, V, nsub, nq, coherent, emulated=True, what="run_jaqal_circuit")
 
+        # ---- the same nest with textually identical subcircuits (anything the emulator shares between subcircuits
+        #      with equal gate sequences shows in the per-subcircuit views)
+        if variant == "lit" and nsub >= 2 and result is not None and coherent:
+            prog2, _o2, _e2 = to_prog(forest, variant, same=True)
+            ctx.trace()
+            try:
+                with fuel(budget):
+                    result2 = impl.run_jaqal_circuit(impl.parse(render.text(prog2), inject_pulses=gates.native_gates()))
+                    self._touch(result2)
+            except OutOfFuel:
+                ctx.fail("identical-subcircuits:non-termination", "run_jaqal_circuit out of fuel on the nest with identical subcircuits")
+            except Exception as e:  # noqa: BLE001
+                ctx.fail("identical-subcircuits:crash", "%s: %s" % (type(e).__name__, e))
+            else:
+                self._judge_result(ctx, result2, V, nsub, nq, coherent, emulated=True, what="run_jaqal_circuit (identical subcircuits)",
+                                   tag="identical-subcircuits:", same=True)
+
         # ---- hardware output lists
         if outmode and len(V) <= 4 and variant in ("lit", "let"):
             if result is None and nodes > 4:
@@ -511,9 +533,11 @@ class C08(Check):
         for s in result.subcircuits:
             list(s.readouts)
 
-    def _judge_result(self, ctx, result, V, nsub, nq, coherent, emulated, what, outs=None, tag=""):
-        """all clauses about one ExecutionResult; outs = the hardware output list (ints) if any"""
+    def _judge_result(self, ctx, result, V, nsub, nq, coherent, emulated, what, outs=None, tag="", same=False):
+        """all clauses about one ExecutionResult; outs = the hardware output list (ints) if any;
+        same: every subcircuit was written with the gates of subcircuit 0"""
         fails = []
+        pattern = (lambda i: _PATTERN(0)) if same else _PATTERN
         readouts = list(result.readouts)
         subs = list(result.subcircuits)
         # numbering in flat order
